@@ -26,23 +26,21 @@ Definition init (default_frequency : Q) : bz := mkbz false q0 default_frequency.
 Definition qlt (a b : Q) : bool := negb (Qle_bool b a).      (* a < b *)
 Definition qle (a b : Q) : bool := Qle_bool a b.             (* a <= b *)
 
-(* if (x < 0.0f) { x = 0.0f; } *)
+(* if (x < 0.0f) { x = 0.0f; }   (the two ends of a sweep) *)
 Definition clamp0 (q : Q) : Q := if qlt q q0 then q0 else q.
+
+(* if (x < 0.5f) { x = 0.0f; }   (every frequency that reaches a tone() site: a frequency that
+   static_cast<unsigned int>(x + 0.5f) would turn into tone(pin, 0) counts as silence) *)
+Definition clamph (q : Q) : Q := if qlt q qhalf then q0 else q.
 
 (* static_cast<int>(x): truncation toward zero (also Python's int() applied to a literal) *)
 Definition c_int (q : Q) : Z := Z.quot (Qnum q) (Zpos (Qden q)).
 
-(* static_cast<unsigned long>(x).  For x >= 0 this is floor x.  For x < 0 the value depends on how x
-   reaches the cast and is supplied by [neg]:
-     - a literal (a double constant in the C++ text): GCC folds the out-of-range conversion to 0
-       ([neg_literal]);
-     - a run-time int expression: the conversion is defined and modular, x + 2^W
-       ([neg_int W], W = 32 on AVR, 64 on the hosted mock core);
-     - a run-time float expression: undefined behaviour (any [neg]).
-   Every universally quantified theorem holds for all [neg]. *)
-Definition c_ulong (neg : Q -> Z) (q : Q) : Z := if qle q0 q then Qfloor q else neg q.
-Definition neg_literal (q : Q) : Z := 0.
-Definition neg_int (W : Z) (q : Q) : Z := 2 ^ W + Qfloor q.
+(* _emit_duration_ms: a duration in milliseconds as unsigned long, a negative duration counting as zero.
+     - a literal d:            static_cast<unsigned long>(max(d, 0))        (clamped by the emitter)
+     - a run-time expression:  auto a = (expr);  (a > 0) ? static_cast<unsigned long>(a) : 0UL
+   Both are floor(x) for x > 0 and 0 otherwise; the cast never sees a negative value. *)
+Definition c_ulong (q : Q) : Z := if qlt q0 q then Qfloor q else 0.
 
 (* static_cast<unsigned int>(f + 0.5f); only ever evaluated for f > 0 *)
 Definition tone_of (f : Q) : Z := Qfloor (f + qhalf).
@@ -65,13 +63,13 @@ Definition sound (pin : Z) (f : Q) (st : bz) : bz * list ev :=
   if qlt q0 f then start_tone pin f st else silence pin st.
 
 (* ---- BuzzerPlayTone ---- *)
-Definition play_tone (pin : Z) (neg : Q -> Z) (fq : Q) (d : option Q) (st : bz) : bz * list ev :=
-  let f := clamp0 fq in
+Definition play_tone (pin : Z) (fq : Q) (d : option Q) (st : bz) : bz * list ev :=
+  let f := clamph fq in
   let '(st1, e1) := if qle f q0 then silence pin st else start_tone pin f st in
   match d with
   | None => (st1, e1)                       (* duration_ms is None: nothing more is emitted *)
   | Some dq =>
-      let du := c_ulong neg dq in
+      let du := c_ulong dq in
       (quiet st1, e1 ++ dl du ++ (if qlt q0 f then [NoTone pin] else []))
   end.
 
@@ -91,52 +89,42 @@ Fixpoint beep_loop (pin : Z) (target : Q) (on off : Z) (k : nat) (st : bz) : bz 
       (st3, e1 ++ e2 ++ e3)
   end.
 
-Definition beep (pin : Z) (neg : Q -> Z) (f : option Q) (on off times : Q) (st : bz) : bz * list ev :=
+Definition beep (pin : Z) (f : option Q) (on off times : Q) (st : bz) : bz * list ev :=
   (* frequency given: static_cast<float>(freq); else the last frequency *)
-  let target := clamp0 (match f with Some q => q | None => b_last st end) in
+  let target := clamph (match f with Some q => q | None => b_last st end) in
   let n := Z.max 0 (c_int times) in                 (* if (times < 0) times = 0 *)
-  beep_loop pin target (c_ulong neg on) (c_ulong neg off) (Z.to_nat n) st.
+  let '(st1, e1) := beep_loop pin target (c_ulong on) (c_ulong off) (Z.to_nat n) st in
+  (* after the loop, whatever the count: noTone(pin); state = false; current = 0.0f; *)
+  (quiet st1, e1 ++ [NoTone pin]).
 
 (* ---- BuzzerSweep ---- *)
-(* static_cast<float>(__redu_total): an unsigned long converted to a 24-bit-significand float, round to
-   nearest, ties to even.  Exact below 2^24.  (The other float operations of the firmware are modelled as exact
-   rational operations; for totals below 2^24 the quotient total/steps cannot be rounded across an integer.) *)
-Definition f32z (n : Z) : Z :=
-  if n <? 2 ^ 24 then n
-  else
-    let u := 2 ^ (Z.log2 n - 23) in
-    let q := n / u in
-    let r := n mod u in
-    let h := u / 2 in
-    if r <? h then q * u
-    else if h <? r then (q + 1) * u
-    else if Z.even q then q * u else (q + 1) * u.
-
-(* progress = (steps == 1) ? 1 : i / (steps - 1);  freq = start + (end - start) * progress, clamped *)
+(* progress = (steps == 1) ? 1 : i / (steps - 1);  freq = start + (end - start) * progress;
+   if (freq < 0.5f) freq = 0.0f *)
 Definition sweep_freq (s e : Q) (steps i : Z) : Q :=
   let progress := if steps =? 1 then Qmake 1 1 else (inject_Z i / (inject_Z steps - Qmake 1 1))%Q in
-  clamp0 (s + (e - s) * progress)%Q.
+  clamph (s + (e - s) * progress)%Q.
 
-(* if (step_delay > 0.0f) delay(static_cast<unsigned long>(step_delay)) - a delay(0) is emitted
-   when 0 < step_delay < 1 *)
+(* melody: if (duration > 0.0f) delay(static_cast<unsigned long>(duration)) - a delay(0) is emitted
+   when 0 < duration < 1 *)
 Definition qdelay (d : Q) : list ev := if qlt q0 d then [Delay (Qfloor d)] else [].
 
-Fixpoint sweep_loop (pin : Z) (s e : Q) (steps : Z) (step_delay : Q) (k : nat) (i : Z) (st : bz)
+(* per step: tone or noTone; if (step_delay > 0UL) delay(step_delay) *)
+Fixpoint sweep_loop (pin : Z) (s e : Q) (steps : Z) (step_delay : Z) (k : nat) (i : Z) (st : bz)
   : bz * list ev :=
   match k with
   | O => (st, [])
   | S k' =>
       let '(st1, e1) := sound pin (sweep_freq s e steps i) st in
       let '(st2, e3) := sweep_loop pin s e steps step_delay k' (i + 1) st1 in
-      (st2, e1 ++ qdelay step_delay ++ e3)
+      (st2, e1 ++ dl step_delay ++ e3)
   end.
 
-Definition sweep (pin : Z) (neg : Q -> Z) (sq eq dq stepsq : Q) (st : bz) : bz * list ev :=
+Definition sweep (pin : Z) (sq eq dq stepsq : Q) (st : bz) : bz * list ev :=
   let s := clamp0 sq in
   let e := clamp0 eq in
-  let total := c_ulong neg dq in
+  let total := c_ulong dq in
   let steps := Z.max 1 (c_int stepsq) in            (* if (steps < 1) steps = 1 *)
-  let step_delay := (inject_Z (f32z total) / inject_Z steps)%Q in   (* steps > 0 always holds here *)
+  let step_delay := total / steps in                (* unsigned long division; steps >= 1 *)
   let '(st1, e1) := sweep_loop pin s e steps step_delay (Z.to_nat steps) 0 st in
   (quiet st1, e1 ++ [NoTone pin]).
 
@@ -179,15 +167,14 @@ Inductive op : Type :=
 
 Section Device.
   Variable pin : Z.
-  Variable neg : Q -> Z.
   Variable tbl : list (text * score).
 
   Definition dstep (st : bz) (o : op) : bz * list ev :=
     match o with
-    | PlayTone f d => play_tone pin neg f d st
+    | PlayTone f d => play_tone pin f d st
     | Stop => stop pin st
-    | Beep f on off times => beep pin neg f on off times st
-    | Sweep s e d steps => sweep pin neg s e d steps st
+    | Beep f on off times => beep pin f on off times st
+    | Sweep s e d steps => sweep pin s e d steps st
     | Melody name tempo => melody pin tbl name tempo st
     end.
 
